@@ -7,6 +7,8 @@ package tv
 
 import (
 	"fmt"
+	"go/parser"
+	"go/token"
 	"os"
 	"os/exec"
 	"path/filepath"
@@ -22,8 +24,8 @@ const ModPath = "example.com/tvmod"
 
 // Case is one function under validation.
 type Case struct {
-	ID    string // stable program id (template/params)
-	Func  string // Go function name (or Type.method)
+	ID    string   // stable program id (template/params)
+	Func  string   // Go function name (or Type.method)
 	Small []string // parameters assumed ≤ SmallBound (loop bounds)
 	// Reject: "must" (subset violation if accepted is NOT implied), "may" (C02: reject-or-equivalent), "" (must be accepted)
 	Reject string
@@ -45,6 +47,8 @@ type Package struct {
 	// example.com/tvmod/<Name>/<dep>; they are translated in the same goose run and their
 	// definitions are loaded under the qualified names dep.X
 	Deps map[string]map[string]string
+	// Isolated: produced by Singletons (one case cut out of a larger package)
+	Isolated bool
 }
 
 // Singletons splits a package into one package per case (used to isolate the case that crashes goose).
@@ -72,14 +76,17 @@ func (p *Package) Singletons() []*Package {
 		}
 		body := strings.Join(pre, "\n") + "\n" + c.Src
 		var keep []string
+		unresolved := unresolvedIdents("package x\n\n" + body)
 		for _, path := range imports {
 			base := path[strings.LastIndex(path, "/")+1:]
-			if strings.Contains(body, base+".") {
+			// a qualifier that names the package is unresolved at file level; a local variable or
+			// parameter that is merely spelled like it is not
+			if strings.Contains(body, base+".") && (unresolved == nil || unresolved[base]) {
 				keep = append(keep, "import \""+path+"\"")
 			}
 		}
 		prelude := strings.Join(keep, "\n") + "\n" + strings.Join(pre, "\n")
-		q := &Package{Name: fmt.Sprintf("%ss%d", p.Name, i), Files: map[string]string{}, Prelude: prelude}
+		q := &Package{Name: fmt.Sprintf("%ss%d", p.Name, i), Files: map[string]string{}, Prelude: prelude, Deps: p.Deps, Isolated: true}
 		src := "package " + q.Name + "\n\n" + prelude + "\n"
 		from := strings.Count(src, "\n") + 1
 		src += c.Src + "\n"
@@ -87,6 +94,20 @@ func (p *Package) Singletons() []*Package {
 		q.Files["gen.go"] = src
 		q.Cases = []Case{c}
 		out = append(out, q)
+	}
+	return out
+}
+
+// unresolvedIdents parses src and returns the identifiers that are not declared in the file (nil
+// when src does not parse).
+func unresolvedIdents(src string) map[string]bool {
+	f, err := parser.ParseFile(token.NewFileSet(), "x.go", src, 0)
+	if err != nil {
+		return nil
+	}
+	out := map[string]bool{}
+	for _, id := range f.Unresolved {
+		out[id.Name] = true
 	}
 	return out
 }
@@ -140,13 +161,13 @@ func (d *Driver) ModDir() string { return filepath.Join(d.Work, "mod") }
 
 // Translation is the outcome of running goose on one package.
 type Translation struct {
-	Exit     int
-	Stderr   string
-	V        string // emitted text ("" if nothing was written)
-	Partial  bool   // produced with -ignore-errors after a failure
-	Errors   []ConvError
-	Crashed  bool
-	DepV     map[string]string // emitted text of the packages in Package.Deps
+	Exit    int
+	Stderr  string
+	V       string // emitted text ("" if nothing was written)
+	Partial bool   // produced with -ignore-errors after a failure
+	Errors  []ConvError
+	Crashed bool
+	DepV    map[string]string // emitted text of the packages in Package.Deps
 }
 
 type ConvError struct {
@@ -300,8 +321,8 @@ func (d *Driver) LoadSSA(p *Package) (*engine.Program, error) {
 
 // declRanges maps each top-level declaration name of the package to (file, first line, last line).
 type declRange struct {
-	file       string
-	from, to   int
+	file     string
+	from, to int
 }
 
 func sortedKeys(m map[string]bool) []string {
